@@ -5,6 +5,8 @@ import Proofs.ExtractReload
 import Proofs.ExtractScope
 import Proofs.ExtractFrame
 import Proofs.ExtractRows
+import Proofs.ExtractPkgRef
+import Proofs.ExtractAcyclic
 
 /-!
   C14 — Component extraction mirrors the BridgePoint class model.
@@ -18,6 +20,10 @@ import Proofs.ExtractRows
   numbers are unique.  `EditOk d e`: the edit is applicable (fresh name / supported types /
   a permutation).  All statements hold for every diagram, every component and both settings of
   the derived-attributes flag.
+  Package references (EP_PKGREF rows, R1402; `ClassDiagram.pkgrefs`) are part of the diagram: `is_contained_in`
+  follows them, so every statement about the scope of a component (`inScope`, `containedIn`, `Reaches`, `TreeOk`) is
+  about containment AND references; `restrict_no_pkgref` says that a diagram without such rows behaves as the
+  reference-free model did, `restrict_follows_reference` … `restrict_selected_once` say what the rows add.
 -/
 
 namespace PyxProps.C14
@@ -29,10 +35,10 @@ open Pyx.Extract
     each built by `classOf` -/
 theorem extract_shape (d : ClassDiagram) (comp : Option Nat) (drv : Bool) :
     (extract d comp drv).classes.map (·.kl) =
-      (d.classes.filter (fun c => inScope d.containers comp c.parent)).map (·.kl) ∧
+      (d.classes.filter (fun c => inScope d.containers d.pkgrefs comp c.parent)).map (·.kl) ∧
     (extract d comp drv).classes.length =
-      (d.classes.filter (fun c => inScope d.containers comp c.parent)).length ∧
-    (∀ s ∈ (extract d comp drv).classes, ∃ c ∈ d.classes, inScope d.containers comp c.parent = true ∧
+      (d.classes.filter (fun c => inScope d.containers d.pkgrefs comp c.parent)).length ∧
+    (∀ s ∈ (extract d comp drv).classes, ∃ c ∈ d.classes, inScope d.containers d.pkgrefs comp c.parent = true ∧
       s = classOf d drv c) := by
   unfold extract
   refine ⟨?_, ?_, ?_⟩
@@ -108,7 +114,7 @@ theorem extract_shape_identifiers {drv : Bool} {d : ClassDiagram} {c : Class} {s
     numbered by R_REL.Numb -/
 theorem extract_shape_groups (d : ClassDiagram) (comp : Option Nat) (drv : Bool) :
     (extract d comp drv).groups =
-      (d.rels.filter (fun r => inScope d.containers comp r.parent)).filterMap (groupOf d) ∧
+      (d.rels.filter (fun r => inScope d.containers d.pkgrefs comp r.parent)).filterMap (groupOf d) ∧
     (∀ r g, groupOf d r = some g → g.rel = r.numb) :=
   ⟨rfl, fun _ _ h => groupOf_rel h⟩
 
@@ -347,25 +353,107 @@ theorem extract_deterministic_under_row_order {d d' : ClassDiagram} (hp : RowPer
 /-! ### restricting to a component -/
 
 /-- `is_contained_in(pe_pe, c_c)` decides exactly "the containment chain PE_PE -> EP_PKG | C_C -> its PE_PE -> …
-    reaches the component" (`Reaches`), through packages, nested components and packages inside components, for
-    every acyclic container forest (`TreeOk`: the fuel of the model covers the depth; Python recurses unboundedly) -/
-theorem restrict_contained_iff {cs : List Container} (tree : TreeOk cs) (root : Nat) (p : Parent) :
-    containedIn cs root p = true ↔ Reaches cs root p :=
+    reaches the component" (`Reaches`), through packages, nested components and packages inside components — and from a
+    package over every EP_PKGREF row that refers to it on to the PE_PE of the REFERRING package (`Reaches.ref`) —, for
+    every acyclic container + reference graph (`TreeOk`: the fuel of the model covers the depth; Python recurses
+    unboundedly and never returns on a containment or reference cycle) -/
+theorem restrict_contained_iff {cs : List Container} {rf : List PkgRef} (tree : TreeOk cs rf) (root : Nat) (p : Parent) :
+    containedIn cs rf root p = true ↔ Reaches cs rf root p :=
   contained_iff tree root p
 
-/-- the restricted build defines exactly the classes whose containment chain reaches the requested component,
-    each one as in the whole model; an association is kept iff the chain of ITS R_REL reaches the component —
+/-- the fuel is sufficient on the domain: ANY larger recursion budget gives the answer `containedIn` gives — exhaustion
+    (the model's `false` at fuel 0) is unreachable on acyclic container + reference graphs -/
+theorem restrict_fuel_sufficient {cs : List Container} {rf : List PkgRef} (tree : TreeOk cs rf) (root : Nat) (p : Parent)
+    (f : Nat) (hf : cs.length < f) : containedFuel cs rf root f p = containedIn cs rf root p :=
+  contained_fuel_irrelevant tree root p f hf
+
+/-- THE DOMAIN IS ACYCLICITY, nothing more: `TreeOk` holds iff SOME natural-valued rank drops from every container row to
+    its parent and from every (existing) referred package to the parent of every (existing) package referring to it — the
+    graph `is_contained_in` walks has no cycle.  The bound `rank ≤ number of container rows` inside `TreeOk` (which makes
+    the fuel `cs.length + 1` enough) can always be met (`TreeOk.of_acyclic`: count the container rows of rank at most
+    one's own). -/
+theorem restrict_domain_is_acyclicity {cs : List Container} {rf : List PkgRef} :
+    TreeOk cs rf ↔ ∃ depth : Parent → Nat,
+      (∀ k ∈ cs, depth k.parent < depth (if k.isComp then .comp k.id else .pkg k.id)) ∧
+      (∀ r ∈ rf, ∀ k kq, findContainer cs false r.referred = some k → findContainer cs false r.referring = some kq →
+        depth kq.parent < depth (.pkg r.referred)) :=
+  treeOk_iff_acyclic
+
+/-- CONSERVATIVE EXTENSION: without EP_PKGREF rows `is_contained_in` is the plain walk up the containment
+    (`containedFuelPlain`: the definition of the model before package references entered it), the domain is the
+    containment forest alone, and `Reaches` has no reference step -/
+theorem restrict_no_pkgref (cs : List Container) (root : Nat) (p : Parent) :
+    containedIn cs [] root p = containedFuelPlain cs root (cs.length + 1) p ∧
+    (TreeOk cs [] ↔ ∃ depth : Parent → Nat,
+      (∀ k ∈ cs, depth k.parent < depth (if k.isComp then .comp k.id else .pkg k.id)) ∧ ∀ p, depth p ≤ cs.length) ∧
+    (Reaches cs [] root p →
+      (∃ k, p = .comp root ∧ findContainer cs true root = some k) ∨
+      (∃ q k, p = .pkg q ∧ findContainer cs false q = some k ∧ Reaches cs [] root k.parent) ∨
+      (∃ c k, p = .comp c ∧ findContainer cs true c = some k ∧ Reaches cs [] root k.parent)) :=
+  ⟨containedFuel_no_pkgref cs root _ p, TreeOk.no_pkgref, reaches_no_pkgref_cases⟩
+
+/-- … and for one element already when no reference row targets a package on ITS OWN containment chain: references
+    elsewhere in the diagram do not matter (no hypothesis on cycles needed) -/
+theorem restrict_untargeted (cs : List Container) (rf : List PkgRef) (root : Nat) (p : Parent)
+    (h : ∀ q, OnChain cs p q → ∀ r ∈ rf, r.referred ≠ q) :
+    containedIn cs rf root p = containedFuelPlain cs root (cs.length + 1) p :=
+  containedFuel_untargeted cs rf root _ p h
+
+/-- WHAT A REFERENCE ADDS: package `r.referring` lies inside the component and refers to package `r.referred` — every
+    element of `r.referred` is inside the component; `is_contained_in` of an element of a package, unfolded once: its
+    package is inside, or a package referring to its package is; and the content below comes along (sub-packages) -/
+theorem restrict_follows_reference {cs : List Container} {rf : List PkgRef} (tree : TreeOk cs rf) (root : Nat) :
+    (∀ r ∈ rf, ∀ k kq, findContainer cs false r.referred = some k → findContainer cs false r.referring = some kq →
+      containedIn cs rf root kq.parent = true → containedIn cs rf root (.pkg r.referred) = true) ∧
+    (∀ p k, findContainer cs false p = some k → containedIn cs rf root k.parent = true →
+      containedIn cs rf root (.pkg p) = true) ∧
+    (∀ p, containedIn cs rf root (.pkg p) = true ↔
+      ∃ k, findContainer cs false p = some k ∧
+        (containedIn cs rf root k.parent = true ∨
+          ∃ r ∈ rf, r.referred = p ∧ ∃ kq, findContainer cs false r.referring = some kq ∧
+            containedIn cs rf root kq.parent = true)) :=
+  ⟨fun _ hr _ _ hk hq hc => contained_of_reference tree hr hk hq hc,
+   fun _ _ hk hc => contained_of_parent tree hk hc,
+   fun p => contained_pkg_iff tree root p⟩
+
+/-- a class of a package referred to from a package of the component IS defined by the restricted build, as in the
+    whole model; a relationship of such a package brings its associations -/
+theorem restrict_reference_selected {d : ClassDiagram} (tree : TreeOk d.containers d.pkgrefs) (c : Nat) (drv : Bool)
+    {r : PkgRef} {kp kq : Container} (hr : r ∈ d.pkgrefs) (hp : findContainer d.containers false r.referred = some kp)
+    (hq : findContainer d.containers false r.referring = some kq)
+    (hc : containedIn d.containers d.pkgrefs c kq.parent = true) :
+    (∀ k ∈ d.classes, k.parent = .pkg r.referred → classOf d drv k ∈ (extract d (some c) drv).classes) ∧
+    (∀ x ∈ d.rels, x.parent = .pkg r.referred → ∀ g, groupOf d x = some g → g ∈ (extract d (some c) drv).groups) := by
+  have hin : containedIn d.containers d.pkgrefs c (.pkg r.referred) = true := contained_of_reference tree hr hp hq hc
+  have hreach := (contained_iff tree c _).mp hin
+  constructor
+  · intro k hk hpar
+    exact ((restrict_exact' tree c drv).1 _).mpr ⟨k, hk, hpar ▸ hreach, rfl⟩
+  · intro x hx hpar g hg
+    exact ((restrict_exact' tree c drv).2 _).mpr ⟨x, hx, hpar ▸ hreach, hg⟩
+
+/-- EXACTLY ONCE: a class (relationship) in scope — along however many chains: its own containment, one or several
+    references — is defined exactly once (key letters / relationship numbers unique, `WF`) -/
+theorem restrict_selected_once {d : ClassDiagram} (wf : WF d) (comp : Option Nat) (drv : Bool) :
+    (∀ k ∈ d.classes, inScope d.containers d.pkgrefs comp k.parent = true →
+      ((extract d comp drv).classes.map (·.kl)).count k.kl = 1) ∧
+    (∀ r ∈ d.rels, inScope d.containers d.pkgrefs comp r.parent = true → ∀ g, groupOf d r = some g →
+      ((extract d comp drv).groups.map (·.rel)).count r.numb = 1) :=
+  ⟨fun _ hk hs => extract_class_once wf comp drv hk hs, fun _ hr hs _ hg => extract_group_once wf comp drv hr hs hg⟩
+
+/-- the restricted build defines exactly the classes whose containment chain (continued over package references:
+    `Reaches`) reaches the requested component, each one as in the whole model; an association is kept iff the chain of ITS R_REL reaches the component —
     the position of its classes plays no role (see `build_raises_on_dangling` for what follows) -/
-theorem restrict_exact {d : ClassDiagram} (tree : TreeOk d.containers) (c : Nat) (drv : Bool) :
+theorem restrict_exact {d : ClassDiagram} (tree : TreeOk d.containers d.pkgrefs) (c : Nat) (drv : Bool) :
     (∀ s, s ∈ (extract d (some c) drv).classes ↔
-      ∃ k ∈ d.classes, Reaches d.containers c k.parent ∧ s = classOf d drv k) ∧
+      ∃ k ∈ d.classes, Reaches d.containers d.pkgrefs c k.parent ∧ s = classOf d drv k) ∧
     (∀ g, g ∈ (extract d (some c) drv).groups ↔
-      ∃ r ∈ d.rels, Reaches d.containers c r.parent ∧ groupOf d r = some g) :=
+      ∃ r ∈ d.rels, Reaches d.containers d.pkgrefs c r.parent ∧ groupOf d r = some g) :=
   restrict_exact' tree c drv
 
 /-- monotone: component ⊆ enclosing component ⊆ whole model (as sublists: same definitions, same order) -/
-theorem restrict_monotone {d : ClassDiagram} (tree : TreeOk d.containers) {c1 c2 : Nat}
-    (h12 : Reaches d.containers c2 (.comp c1)) (drv : Bool) :
+theorem restrict_monotone {d : ClassDiagram} (tree : TreeOk d.containers d.pkgrefs) {c1 c2 : Nat}
+    (h12 : Reaches d.containers d.pkgrefs c2 (.comp c1)) (drv : Bool) :
     (extract d (some c1) drv).classes.Sublist (extract d (some c2) drv).classes ∧
     (extract d (some c2) drv).classes.Sublist (extract d none drv).classes ∧
     (extract d (some c1) drv).groups.Sublist (extract d (some c2) drv).groups ∧
@@ -374,12 +462,12 @@ theorem restrict_monotone {d : ClassDiagram} (tree : TreeOk d.containers) {c1 c2
 
 /-- restricting a restriction is the restriction to the inner component; with `c1 = c2` (`Reaches.here`):
     restricting twice is restricting once -/
-theorem restrict_compose {d : ClassDiagram} (tree : TreeOk d.containers) {c1 c2 : Nat}
-    (h12 : Reaches d.containers c2 (.comp c1)) (drv : Bool) :
-    ((d.classes.filter (fun k => inScope d.containers (some c2) k.parent)).filter
-        (fun k => inScope d.containers (some c1) k.parent)).map (classOf d drv) = (extract d (some c1) drv).classes ∧
-    ((d.rels.filter (fun r => inScope d.containers (some c2) r.parent)).filter
-        (fun r => inScope d.containers (some c1) r.parent)).filterMap (groupOf d) = (extract d (some c1) drv).groups :=
+theorem restrict_compose {d : ClassDiagram} (tree : TreeOk d.containers d.pkgrefs) {c1 c2 : Nat}
+    (h12 : Reaches d.containers d.pkgrefs c2 (.comp c1)) (drv : Bool) :
+    ((d.classes.filter (fun k => inScope d.containers d.pkgrefs (some c2) k.parent)).filter
+        (fun k => inScope d.containers d.pkgrefs (some c1) k.parent)).map (classOf d drv) = (extract d (some c1) drv).classes ∧
+    ((d.rels.filter (fun r => inScope d.containers d.pkgrefs (some c2) r.parent)).filter
+        (fun r => inScope d.containers d.pkgrefs (some c1) r.parent)).filterMap (groupOf d) = (extract d (some c1) drv).groups :=
   restrict_compose' tree h12 drv
 
 /-- a relationship inside the component with a class outside it: `define_association` cannot find the class,
@@ -602,13 +690,13 @@ def nested : List Container :=
   [⟨false, 5, "Pkg", .comp 6⟩, ⟨true, 6, "Comp", .none⟩, ⟨false, 7, "Other", .none⟩, ⟨true, 8, "Inner", .pkg 5⟩,
    ⟨false, 9, "Deep", .comp 8⟩]
 
-example : TreeOk nested :=
+theorem nested_tree : TreeOk nested [] :=
   ⟨⟨fun p => match p with
       | .none => 0 | .comp 6 => 1 | .pkg 5 => 2 | .comp 8 => 3 | .pkg 9 => 4 | .pkg 7 => 1 | _ => 0,
-    by decide, by intro p; simp only [nested, List.length_cons, List.length_nil]; split <;> omega⟩⟩
+    by decide, (fun r hr => by cases hr), by intro p; simp only [nested, List.length_cons, List.length_nil]; split <;> omega⟩⟩
 
-example : Reaches nested 6 (.pkg 9) ∧ Reaches nested 6 (.comp 8) ∧ containedIn nested 6 (.pkg 9) = true ∧
-    containedIn nested 8 (.pkg 5) = false ∧ containedIn nested 6 (.pkg 7) = false :=
+example : Reaches nested [] 6 (.pkg 9) ∧ Reaches nested [] 6 (.comp 8) ∧ containedIn nested [] 6 (.pkg 9) = true ∧
+    containedIn nested [] 8 (.pkg 5) = false ∧ containedIn nested [] 6 (.pkg 7) = false :=
   ⟨.pkg (k := ⟨false, 9, "Deep", .comp 8⟩) (by decide)
       (.comp (k := ⟨true, 8, "Inner", .pkg 5⟩) (by decide) (.pkg (k := ⟨false, 5, "Pkg", .comp 6⟩) (by decide) (.here (k := ⟨true, 6, "Comp", .none⟩) (by decide)))),
    .comp (k := ⟨true, 8, "Inner", .pkg 5⟩) (by decide) (.pkg (k := ⟨false, 5, "Pkg", .comp 6⟩) (by decide) (.here (k := ⟨true, 6, "Comp", .none⟩) (by decide))),
@@ -653,9 +741,10 @@ example : (match buildOutcome { dSub with rels := [⟨41, 7, .subsup 9 [(2, [⟨
     | .attributeError => true | _ => false) = true := by decide
 
 /-- the rows of d0 in reverse order -/
-example : RowWF d0 ∧ RowPerm d0 ⟨d0.containers.reverse, d0.dts.reverse, d0.classes.reverse, d0.rels.reverse, [], []⟩ :=
+example : RowWF d0 ∧ RowPerm d0 ⟨d0.containers.reverse, d0.dts.reverse, d0.classes.reverse, d0.rels.reverse, [], [], []⟩ :=
   ⟨⟨by decide, by decide, by decide⟩,
-   ⟨(List.reverse_perm _).symm, (List.reverse_perm _).symm, (List.reverse_perm _).symm, (List.reverse_perm _).symm⟩⟩
+   ⟨(List.reverse_perm _).symm, (List.reverse_perm _).symm, (List.reverse_perm _).symm, (List.reverse_perm _).symm,
+    List.Perm.refl _⟩⟩
 
 /-- the names of d0 are in the lexical domain of the SQL dialect, for every view `u` of the non-ASCII characters -/
 theorem d0_namesOk (u : Pyx.Sql.UC) : NamesOk u d0 := by
@@ -908,5 +997,141 @@ example :
     buildAll { d0 with rowRels := [⟨43, 3, wUnformal, .pkg 5⟩, ⟨44, 4, {}, .pkg 5⟩] } (some 6) false = .typeError ∧
     (match buildAll { d0 with rowRels := [⟨44, 4, {}, .pkg 7⟩] } (some 6) false with
       | .ok s => s.groups.map (·.rel) | _ => []) = [1, 2] := by decide
+
+/-! ### non-vacuity with a PACKAGE REFERENCE: every restriction theorem applied to `dRef` -/
+
+/-- d0 plus: class CAT and relationship R3 (CAT -> Owner) in the GLOBAL package Other (7); package Ref (8) inside
+    component Comp refers to Other (EP_PKGREF 8 -> 7); package Far (9) is global and refers to Pkg (5) — a reference from
+    OUTSIDE any component, which adds nothing; a second component Comp2 (10) with nothing in it -/
+def dRef : ClassDiagram :=
+  { d0 with
+    containers := d0.containers ++ [⟨false, 8, "Ref", .comp 6⟩, ⟨false, 9, "Far", .none⟩, ⟨true, 10, "Comp2", .none⟩],
+    classes := d0.classes ++ [⟨4, "CAT", [⟨41, "id", .base 102⟩, ⟨42, "owner_id", .ref 1 11⟩], [⟨0, [41]⟩], .pkg 7⟩],
+    rels := d0.rels ++ [⟨43, 3, .simple ⟨4, true, true, "is fed by"⟩ ⟨1, false, false, "feeds"⟩ [⟨42, 11⟩], .pkg 7⟩],
+    pkgrefs := [⟨8, 7⟩, ⟨9, 5⟩] }
+
+theorem dRef_tree : TreeOk dRef.containers dRef.pkgrefs :=
+  TreeOk.of_rank (fun p => match p with
+      | .none => 0 | .comp 6 => 1 | .pkg 5 => 2 | .pkg 8 => 2 | .pkg 7 => 2 | .pkg 9 => 1 | .comp 10 => 1 | _ => 0)
+    (by decide) (by decide)
+    (by intro p; simp only [dRef, d0, List.length_append, List.length_cons, List.length_nil]; split <;> omega)
+
+theorem dRef_wf : WF dRef := by
+  constructor <;> decide
+
+/-- `restrict_domain_is_acyclicity` applied: a rank far above the number of rows (10, 20, 30) is as good -/
+example : TreeOk dRef.containers dRef.pkgrefs :=
+  restrict_domain_is_acyclicity.mpr ⟨fun p => match p with
+      | .none => 0 | .comp 6 => 10 | .pkg 5 => 20 | .pkg 8 => 20 | .pkg 7 => 30 | .pkg 9 => 10 | .comp 10 => 10 | _ => 0,
+    by decide, by
+      intro r hr k kq hk hq
+      simp only [dRef, List.mem_cons, List.not_mem_nil, or_false] at hr
+      rcases hr with rfl | rfl
+      · have : findContainer dRef.containers false 8 = some ⟨false, 8, "Ref", .comp 6⟩ := by decide
+        rw [this] at hq; cases hq; decide
+      · have : findContainer dRef.containers false 9 = some ⟨false, 9, "Far", .none⟩ := by decide
+        rw [this] at hq; cases hq; decide⟩
+
+/-- the model computes it: CAT and R3 are inside Comp (6) through the reference, not inside Comp2 (10); without the
+    reference rows they are not inside Comp either -/
+example : (extract dRef (some 6) false).classes.map (·.kl) = ["OWN", "DOG", "LSH", "CAT"] ∧
+    (extract dRef (some 6) false).groups.map (·.rel) = [1, 2, 3] ∧
+    (extract dRef (some 10) false).classes = [] ∧
+    (extract { dRef with pkgrefs := [] } (some 6) false).classes.map (·.kl) = ["OWN", "DOG", "LSH"] ∧
+    (mkComponent dRef (some 6) false).isSome = true := by decide
+
+/-- `restrict_contained_iff` on dRef: the relational side, by the reference step -/
+example : containedIn dRef.containers dRef.pkgrefs 6 (.pkg 7) = true :=
+  (restrict_contained_iff dRef_tree 6 (.pkg 7)).mpr
+    (.ref (k := ⟨false, 7, "Other", .none⟩) (r := ⟨8, 7⟩) (kq := ⟨false, 8, "Ref", .comp 6⟩) (by decide) (by decide) rfl
+      (by decide) (.here (k := ⟨true, 6, "Comp", .none⟩) (by decide)))
+
+/-- … and back: what the model answers for Comp2 is a statement about chains -/
+example : ¬ Reaches dRef.containers dRef.pkgrefs 10 (.pkg 7) :=
+  fun h => absurd ((restrict_contained_iff dRef_tree 10 (.pkg 7)).mpr h) (by decide)
+
+example : containedFuel dRef.containers dRef.pkgrefs 6 1000 (.pkg 7) = containedIn dRef.containers dRef.pkgrefs 6 (.pkg 7) :=
+  restrict_fuel_sufficient dRef_tree 6 (.pkg 7) 1000 (by decide)
+
+/-- `restrict_follows_reference`, first clause, for the row 8 -> 7 -/
+example : containedIn dRef.containers dRef.pkgrefs 6 (.pkg 7) = true :=
+  (restrict_follows_reference dRef_tree 6).1 ⟨8, 7⟩ (by decide) ⟨false, 7, "Other", .none⟩ ⟨false, 8, "Ref", .comp 6⟩
+    (by decide) (by decide) (by decide)
+
+/-- `restrict_reference_selected`: CAT is defined in Comp as in the whole model, R3 brings its association -/
+example : classOf dRef false ⟨4, "CAT", [⟨41, "id", .base 102⟩, ⟨42, "owner_id", .ref 1 11⟩], [⟨0, [41]⟩], .pkg 7⟩ ∈
+    (extract dRef (some 6) false).classes :=
+  (restrict_reference_selected dRef_tree 6 false (r := ⟨8, 7⟩) (kp := ⟨false, 7, "Other", .none⟩)
+    (kq := ⟨false, 8, "Ref", .comp 6⟩) (by decide) (by decide) (by decide) (by decide)).1 _ (by decide) rfl
+
+/-- `restrict_selected_once`: Owner is inside Comp by its own chain AND Pkg is referred to (from Far): defined once; CAT
+    comes over the reference: once -/
+example : ((extract dRef (some 6) false).classes.map (·.kl)).count "OWN" = 1 ∧
+    ((extract dRef (some 6) false).classes.map (·.kl)).count "CAT" = 1 :=
+  ⟨(restrict_selected_once dRef_wf (some 6) false).1
+      ⟨1, "OWN", [⟨11, "id", .base 102⟩, ⟨12, "name", .base 104⟩, ⟨13, "age", .derived 102⟩], [⟨0, [11]⟩], .pkg 5⟩ (by decide) (by decide),
+   (restrict_selected_once dRef_wf (some 6) false).1
+      ⟨4, "CAT", [⟨41, "id", .base 102⟩, ⟨42, "owner_id", .ref 1 11⟩], [⟨0, [41]⟩], .pkg 7⟩ (by decide) (by decide)⟩
+
+/-- `restrict_exact` on dRef: membership in the restricted build from a chain with a reference step -/
+example : ∃ k ∈ dRef.classes, Reaches dRef.containers dRef.pkgrefs 6 k.parent ∧ k.kl = "CAT" := by
+  have h : classOf dRef false ⟨4, "CAT", [⟨41, "id", .base 102⟩, ⟨42, "owner_id", .ref 1 11⟩], [⟨0, [41]⟩], .pkg 7⟩ ∈
+      (extract dRef (some 6) false).classes := by decide
+  obtain ⟨k, hk, hr, he⟩ := ((restrict_exact dRef_tree 6 false).1 _).mp h
+  refine ⟨k, hk, hr, ?_⟩
+  have := congrArg SClass.kl he
+  simpa [classOf] using this.symm
+
+/-- `restrict_monotone` / `restrict_compose` with c1 = c2 = Comp on dRef (restricting twice = once, references included) -/
+example : (extract dRef (some 6) true).classes.Sublist (extract dRef none true).classes :=
+  (restrict_monotone dRef_tree (c1 := 6) (c2 := 6) (.here (k := ⟨true, 6, "Comp", .none⟩) (by decide)) true).2.1
+
+example : ((dRef.classes.filter (fun k => inScope dRef.containers dRef.pkgrefs (some 6) k.parent)).filter
+    (fun k => inScope dRef.containers dRef.pkgrefs (some 6) k.parent)).map (classOf dRef false) =
+    (extract dRef (some 6) false).classes :=
+  (restrict_compose dRef_tree (c1 := 6) (c2 := 6) (.here (k := ⟨true, 6, "Comp", .none⟩) (by decide)) false).1
+
+/-- `restrict_untargeted`: no reference row targets a package on the chain of an element of Ref (8) -/
+example : containedIn dRef.containers dRef.pkgrefs 6 (.pkg 8) = containedFuelPlain dRef.containers 6 (dRef.containers.length + 1) (.pkg 8) :=
+  restrict_untargeted _ _ 6 (.pkg 8) (by
+    intro q hq r hr
+    have h8 : q = 8 := by
+      cases hq with
+      | here _ => rfl
+      | up hk h' =>
+        have : findContainer dRef.containers false 8 = some ⟨false, 8, "Ref", .comp 6⟩ := by decide
+        rw [this] at hk; cases hk
+        cases h' with
+        | upComp hk' h'' =>
+          have : findContainer dRef.containers true 6 = some ⟨true, 6, "Comp", .none⟩ := by decide
+          rw [this] at hk'; cases hk'; cases h''
+    subst h8
+    simp only [dRef, List.mem_cons, List.not_mem_nil, or_false] at hr
+    rcases hr with rfl | rfl <;> decide)
+
+/-- the rows of dRef in another order, the EP_PKGREF rows too: `extract_deterministic_under_row_order` -/
+example : (extract dRef (some 6) false).classes.Perm
+    (extract { dRef with containers := dRef.containers.reverse, pkgrefs := dRef.pkgrefs.reverse } (some 6) false).classes :=
+  (extract_deterministic_under_row_order (d := dRef)
+    (d' := { dRef with containers := dRef.containers.reverse, pkgrefs := dRef.pkgrefs.reverse })
+    ⟨(List.reverse_perm _).symm, List.Perm.refl _, List.Perm.refl _, List.Perm.refl _, (List.reverse_perm _).symm⟩
+    ⟨by decide, by decide, by decide⟩ (some 6) false).1
+
+/-- NOT transitive over references alone: Other2 is referred to by the global package Other, which is only REFERRED to
+    from the component (not contained in it) — the content of Other2 is not inside the component; a package nested in
+    Other is -/
+example :
+    let cs : List Container := [⟨true, 6, "Comp", .none⟩, ⟨false, 8, "Ref", .comp 6⟩, ⟨false, 7, "Other", .none⟩,
+      ⟨false, 11, "Other2", .none⟩, ⟨false, 12, "Sub", .pkg 7⟩]
+    containedIn cs [⟨8, 7⟩, ⟨7, 11⟩] 6 (.pkg 7) = true ∧ containedIn cs [⟨8, 7⟩, ⟨7, 11⟩] 6 (.pkg 11) = false ∧
+    containedIn cs [⟨8, 7⟩, ⟨7, 11⟩] 6 (.pkg 12) = true := by decide
+
+/-- OUTSIDE the domain: Ref lies inside Other and refers to it — `is_contained_in` of an element of Other asks for Ref,
+    whose chain passes Other, which asks for Ref … : Python never returns (RecursionError); no rank exists, and the
+    model's answer is the exhaustion value `false` for every fuel -/
+example : ¬ TreeOk [⟨false, 7, "Other", .none⟩, ⟨false, 8, "Ref", .pkg 7⟩] [⟨8, 7⟩] := by
+  rintro ⟨depth, _, href, _⟩
+  have := href ⟨8, 7⟩ (by decide) ⟨false, 7, "Other", .none⟩ ⟨false, 8, "Ref", .pkg 7⟩ (by decide) (by decide)
+  exact absurd this (Nat.lt_irrefl _)
 
 end PyxProps.C14
